@@ -49,7 +49,10 @@ def check_executions(sim, res, shape, faults, prop="C18", per_loss_bound=False):
                 "unjustified_reexecution",
                 f"job {job} executed {n} times: own execute failures {own.get(job, 0)}, loss events of its outputs {losses.get(job, 0)} "
                 f"(ancestor of a failed job: {anc_of_failed}); fail events={c.fail_events}; losses={c.lost_jobs}; {d}",
-                signature="unjustified_reexecution:" + ("never_lost" if not losses.get(job) else "more_than_once_per_loss"))
+                signature="unjustified_reexecution:" + ("never_lost" if not losses.get(job) else "more_than_once_per_loss")
+                + (":own_schedule_or_transfer_failure_while_its_input_was_lost_by_another_job"
+                   if not losses.get(job) and any(e[1] == job and e[2] != "execute" for e in c.fail_events)
+                   and any(losses.get(a) for a in S.ancestors(g, job)) and any(f != job for _, f, _ in c.lost_jobs) else ""))
     return own, losses
 
 
